@@ -191,6 +191,19 @@ class SyncSystem:
         self.F.bind_property_statechart(prop, interpreter_klass=self._klass)
         self.obs = {k: SynchronizedClock(getattr(self, k)) for k in 'LFG'}
         self.ref = {'base': 0, 'L': 0, 'F': 0, 'G': 0, 'P': 0}
+        # a step has begun as soon as it is announced: whoever is told about a step (any meta-event, 'step started'
+        # first) must already read that step's time from a clock that follows the interpreter
+        self.during = []
+        for k in 'LFG':
+            getattr(self, k).attach(lambda ev, k=k: self._seen(k, ev))
+
+    def _seen(self, who, ev):
+        t = self.obs[who].time
+        if t != self.ref[who]:
+            self.during.append("during '%s' of a step of %s at %s, a SynchronizedClock on %s shows %s"
+                               % (ev.name, who, self.ref[who], who, t))
+        if ev.name == 'step started' and ev.time != self.ref[who]:
+            self.during.append("'step started' of %s carries time %s, the step is at %s" % (who, ev.time, self.ref[who]))
 
     def _klass(self, statechart, clock):
         from sismic.interpreter import Interpreter
@@ -217,6 +230,8 @@ class SyncSystem:
             step = it.execute_once()
             if step is not None and step.time != self.ref[who]:
                 errs.append('MacroStep of %s carries time %s, its clock showed %s' % (who, step.time, self.ref[who]))
+        errs += self.during[:3]
+        del self.during[:]
         return errs + self.check()
 
     def check(self):
